@@ -52,6 +52,10 @@ def stream_of(frames):
     return b"".join(struct.pack(">I", len(f))[1:] + f for f in frames)
 
 
+class _UpperFailed(Exception):
+    pass
+
+
 class Rig(object):
     def __init__(self):
         self.stack, self.bottom, self.top = sandwich((YowNoiseSegmentsLayer,), PROPS)
@@ -204,6 +208,52 @@ def _run_case(case):
                         rig0.top.broadcastEvent(YowLayerEvent(names[which % len(names)]))
             rig0.feed = feed_with_events
             out.label("events_between_chunks")
+        if case.get("upper_raises"):
+            # the layer above fails while it is handling some of the frames (it has been handed them: they count as delivered);
+            # the feeder sees the exception and the connection goes on.  Every frame is still handed upward exactly once, in
+            # order and unmodified: what was delivered is at all times a prefix of what the peer sent, and once a chunk has been
+            # taken without a failure everything complete so far has been delivered
+            out.label("upper_layer_raises_on_a_frame")
+            failing = set(i % len(frames) for i in case["upper_raises"])
+            top = rig0.top
+            plain = top.receive
+
+            def receive(data, _plain=plain):
+                _plain(data)
+                if len(top.got) - 1 in failing:
+                    raise _UpperFailed("frame %d" % (len(top.got) - 1))
+            top.receive = receive
+            stream = stream_of(frames)
+            prev = 0
+            raised_last = False
+            n_raised = 0
+            for c in list(cuts) + [len(stream)]:
+                if c <= prev:
+                    continue
+                raised_last = False
+                try:
+                    rig0.feed(stream[prev:c])
+                except _UpperFailed:
+                    raised_last = True
+                    n_raised += 1
+                except Exception as e:
+                    out.fail("incoming", "incoming:exception", {"at": c, "error": repr(e)[:200]})
+                    return out
+                prev = c
+                got = [bytes(g) for g in top.got]
+                if got != frames[:len(got)]:
+                    out.fail("incoming", "incoming:after_upper_layer_failure:not_the_frames_sent_once_each_in_order",
+                             {"at": c, "delivered_lengths": [len(g) for g in got], "sent_lengths": [len(f) for f in frames], "failing_frames": sorted(failing)})
+                    return out
+                if not raised_last:
+                    whole = sum(1 for b in itertools.accumulate(3 + n for n in lens) if b <= c)
+                    if len(got) != whole:
+                        out.fail("incoming", "incoming:after_upper_layer_failure:count", {"at": c, "delivered": len(got), "complete_so_far": whole})
+                        return out
+            if n_raised:
+                out.label("feeder_saw_upper_failure")
+            out.info = {"inside": bool(inside)}
+            return out
         res = check_stream(rig0, frames, cuts, 0)
         if res is not None:
             out.fail("incoming", "incoming:" + res[0], res[1])
@@ -299,6 +349,15 @@ def _enum_fills():
 OUT_BOUNDARY = [0, 1, 2, 255, 256, 257, 65535, 65536, 65537, 2 ** 24 - 1, 2 ** 24, 2 ** 24 + 1]
 
 
+def _enum_upper_raises():
+    # the layer above fails on one frame of a short stream: every position of the failing frame, whole-stream / per-frame / per-byte chunks
+    for lens in ([2, 3, 1], [5, 1, 1, 4]):
+        L = sum(3 + n for n in lens)
+        for k in range(len(lens)):
+            for cuts in ([], list(itertools.accumulate(3 + n for n in lens))[:-1], list(range(1, L))):
+                yield {"sub": "stream", "lens": lens, "fills": [0], "cuts": cuts, "upper_raises": [k]}
+
+
 def _enum_outgoing():
     for n in OUT_BOUNDARY:
         yield {"sub": "outgoing", "n": n, "fill": 0}
@@ -329,7 +388,8 @@ def stream_strategy(tier):
             cuts = list(range(1, L))  # byte by byte
         fills = draw(st.lists(st.integers(0, 3), min_size=1, max_size=3))
         return {"sub": "stream", "lens": ls, "fills": fills, "cuts": sorted(set(cuts)), "second_connection": draw(st.integers(0, 3)) == 0,
-                "events_between_chunks": draw(st.one_of(st.just([]), st.lists(st.tuples(st.integers(1, 8), st.integers(0, 2)).map(list), min_size=1, max_size=3)))}
+                "events_between_chunks": draw(st.one_of(st.just([]), st.lists(st.tuples(st.integers(1, 8), st.integers(0, 2)).map(list), min_size=1, max_size=3))),
+                "upper_raises": draw(st.one_of(st.just([]), st.just([]), st.lists(st.integers(0, 7), min_size=1, max_size=3)))}
     return build()
 
 
@@ -347,6 +407,7 @@ def plan(tier):
             ("partitions_len1-%d" % (3 if quick else 4), _enum_partitions(3 if quick else 4)),
             ("adversarial_fill_partitions", _enum_fills),
             ("outgoing_boundaries", _enum_outgoing),
+            ("upper_layer_fails_on_a_frame", _enum_upper_raises),
         ],
         "exhaustive": ["partitions_len1-%d" % (3 if quick else 4), "adversarial_fill_partitions"],
         "strategies": [
